@@ -1026,6 +1026,14 @@ func (ps *PeerState) GetRoundState() *cstypes.PeerRoundState {
 	return &prs
 }
 
+// GetHeight returns an atomic snapshot of the PeerRoundState's height
+// used by the evidence reactor to ensure peers are caught up before broadcasting evidence.
+func (ps *PeerState) GetHeight() uint64 {
+	ps.mtx.Lock()
+	defer ps.mtx.Unlock()
+	return ps.PRS.Height
+}
+
 // SetHasProposal sets the given proposal as known for the peer.
 func (ps *PeerState) SetHasProposal(proposal *types.Proposal) {
 	ps.mtx.Lock()
